@@ -139,10 +139,17 @@ def _c09_valgrind(out, exe, res):
 # ------------------------------------------------------------------------------------------------
 def run_c10(out, exe, tier, res):
     reps = []
-    # two separate processes, side by side (quick tier; the thorough histories use 16 threads each, so one after the other)
+    # a third process runs the quick workload from a plain release build (no debug assertions, no overflow checks): code
+    # that only executes inside debug_assert!/cfg(debug_assertions) is absent there
+    exe_rel, msg = hcheck.build_harness(profile="release")
+    if exe_rel is None:
+        out.inconclusive.append("release-profile build: " + msg)
+        return
+    # separate processes, side by side (quick tier; the thorough histories use 16 threads each, so one after the other)
     import concurrent.futures
-    with concurrent.futures.ThreadPoolExecutor(max_workers=2 if tier == "quick" else 1) as ex:
+    with concurrent.futures.ThreadPoolExecutor(max_workers=3 if tier == "quick" else 1) as ex:
         futs = [ex.submit(_single, out, exe, "C10", tier, "%s.p%d" % (res, k)) for k in range(2)]
+        futs.append(ex.submit(_single, out, exe_rel, "C10", "quick", "%s.p2" % res))
         for k, f in enumerate(futs):
             rep, status, err = f.result()
             try:
@@ -150,9 +157,10 @@ def run_c10(out, exe, tier, res):
             except OSError:
                 pass
             if rep is None:
-                out.inconclusive.append("process %d: %s" % (k, status))
+                out.inconclusive.append("process %d%s: %s" % (k, " (release profile)" if k == 2 else "", status))
                 return
             reps.append(rep)
+    rel = reps.pop()
     heads = []
     for rep in reps:
         h = {}
@@ -171,6 +179,25 @@ def run_c10(out, exe, tier, res):
                           {"cmd": "C10", "note": "cross-process comparison; re-run the check", "config": cfg, "nonces": sorted(common_n)[:5]})
     if compared == 0:
         out.inconclusive.append("no nonce heads to compare across processes")
+    # the release-profile process: its own violations, and its nonces against those of process 0
+    rel_compared = 0
+    for name, vals in rel.get("observed", {}).items():
+        if name.startswith("nonce-heads "):
+            cfg = name[len("nonce-heads "):]
+            a = heads[0].get(cfg, set())
+            rel_compared += len(vals)
+            common_n = a & set(vals)
+            if common_n:
+                out.violation("C10 cross-process-nonce-repeat %s" % cfg,
+                              "%s: the release-profile process and the first process produced the same nonce(s) %s" % (cfg, sorted(common_n)[:3]),
+                              {"cmd": "C10", "note": "cross-process comparison (release profile); re-run the check", "config": cfg, "nonces": sorted(common_n)[:5]})
+    if rel_compared == 0:
+        out.inconclusive.append("no nonce heads from the release-profile process")
+    rel["observed"] = {k: v for k, v in rel.get("observed", {}).items() if not k.startswith("nonce-heads ")}
+    rel["samples"] = []
+    for v in rel.get("violations", []):
+        v["desc"] = "[release profile] " + v.get("desc", "")
+    rel_evals = rel.get("evaluations", 0)
     # evidence: first process in full, second contributes its counters
     for rep in reps:
         rep["observed"] = {k: v for k, v in rep.get("observed", {}).items() if not k.startswith("nonce-heads ")}
@@ -178,8 +205,10 @@ def run_c10(out, exe, tier, res):
     reps[1]["samples"] = []
     d = out.distinct_nontrivial
     hcheck.absorb(out, reps[1])
-    out.distinct_nontrivial = d   # same histories, second process: not more distinct cases
-    out.coverage_extra["processes"] = 2
+    hcheck.absorb(out, rel)
+    out.distinct_nontrivial = d   # same histories, further processes: not more distinct cases
+    out.coverage_extra["processes"] = 3
+    out.coverage_extra["build_profiles"] = ["verif (release + debug assertions + overflow checks), 2 processes", "release (quick workload), 1 process, %d evaluations" % rel_evals]
     out.coverage_extra["nonces_compared_across_processes"] = compared
 
 
